@@ -107,7 +107,13 @@ fn config(sh: &Arc<Shared>, g: u64) -> log4rs::Config {
 }
 
 fn set_config(sh: &Arc<Shared>, h: &log4rs::Handle) -> u64 {
-    let r = sh.next_reconf.fetch_add(1, Ordering::SeqCst) % 6 + 1;
+    set_config_as(sh, h, None)
+}
+
+/// `slot`: the specification's reconfiguring process; a thread that reconfigures in a loop keeps one slot (it has
+/// one call in flight at a time), single calls take the next free one
+fn set_config_as(sh: &Arc<Shared>, h: &log4rs::Handle, slot: Option<u64>) -> u64 {
+    let r = slot.unwrap_or_else(|| sh.next_reconf.fetch_add(1, Ordering::SeqCst) % 6 + 1);
     let cfg;
     let g;
     {
@@ -151,7 +157,7 @@ fn fresh(events: &Events) -> (Arc<Shared>, Arc<log4rs::Logger>, log4rs::Handle) 
 }
 
 /// free-running threads with a seeded amplifier at the sync points
-fn scenario_free(rng: &mut Rng, events: &Events) {
+fn scenario_free(rng: &mut Rng, events: &Events, long: bool) {
     let (sh, logger, h) = fresh(events);
     let amp = Arc::new(Mutex::new(Rng::new(rng.next())));
     log4rs::verif::set_global_callback(Some(Arc::new(move |_name: &str, _a: u64| {
@@ -162,24 +168,25 @@ fn scenario_free(rng: &mut Rng, events: &Events) {
         }
         Ok(())
     })));
-    let nl = 1 + rng.below(3);
-    let nr = 1 + rng.below(2);
+    // `long`: one lifetime of a logger with hundreds of reconfigurations (generation counters, caches)
+    let nl = if long { 3 } else { 1 + rng.below(3) };
+    let nr = if long { 2 } else { 1 + rng.below(2) };
     let mut hs = vec![];
     for t in 1..=nl {
         let (sh, logger) = (sh.clone(), logger.clone());
-        let n = 2 + rng.below(10);
+        let n = if long { 200 } else { 2 + rng.below(10) };
         hs.push(std::thread::spawn(move || {
             for _ in 0..n {
                 log_one(&sh, &logger, t);
             }
         }));
     }
-    for _ in 0..nr {
+    for j in 0..nr {
         let (sh, h) = (sh.clone(), h.clone());
-        let n = 1 + rng.below(4);
+        let n = if long { 170 } else { 1 + rng.below(4) };
         hs.push(std::thread::spawn(move || {
             for _ in 0..n {
-                set_config(&sh, &h);
+                set_config_as(&sh, &h, Some(j + 1));
                 std::thread::yield_now();
             }
         }));
@@ -257,8 +264,8 @@ pub fn main(args: &[String]) {
     }
     scenario_parked_after_load(&events);
     scenarios += 1;
-    for _ in 0..n {
-        scenario_free(&mut rng, &events);
+    for k in 0..n {
+        scenario_free(&mut rng, &events, k == 0);
         scenarios += 1;
     }
     let ev = events.lock().unwrap();
